@@ -27,12 +27,14 @@ def run(tier, seed):
                 new = gen.rotate(new, rng.randrange(len(new)))
                 if rng.random() < 0.3:        # written the way many labs do: backbone and sites in lower case, insert in upper case
                     new = "".join(ch.lower() if rng.random() < 0.5 else ch for ch in new)
-                if rng.random() < 0.25:       # a backbone that was never domesticated: one more (reverse) site of the enzyme behind the structure
-                    alt = G.module(c["overhangs"][pos], gen.rnd(rng.randint(2, 9), rng), c["overhangs"][pos + 1], gen.rnd(rng.randint(1, 4), rng), rng)
-                    if alt:
-                        new = gen.rotate(alt + G.rcsite + gen.rnd(rng.randint(2, 6), rng, G.safe), rng.randrange(len(alt)))
                 if rng.random() < 0.3:        # the very same plasmid, loaded with another origin
                     new = gen.rotate(c["modules"][pos], rng.randrange(1, len(c["modules"][pos])))
+                if rng.random() < 0.25:
+                    # a backbone that was never domesticated: one more (forward) site of the enzyme BEHIND the structure, the
+                    # record starting on its structure (so that the class reads the structure first and accepts the plasmid)
+                    alt = G.module(c["overhangs"][pos], gen.rnd(rng.randint(2, 9), rng), c["overhangs"][pos + 1], gen.rnd(rng.randint(1, 4), rng, G.safe), rng)
+                    if alt:
+                        new = alt + G.site + gen.rnd(rng.randint(2, 6), rng, G.safe)
                 r = {"fn": "assemble", "enz": espec, "vector": {"id": "vec", "seq": gen.rotate(c["vector"], rng.randrange(len(c["vector"])))},
                      "modules": list(mods), "id": "p", "name": "p",
                      "twin": {"by": "swap", "pos": pos, "mod": {"id": "new", "seq": new}, "reuse": rng.random() < 0.5}}
